@@ -10,7 +10,7 @@ RULE = ('one case = a real datacake_node::Clock actor on a multi-threaded tokio 
 ASSUMPTIONS = ['flume channel is FIFO with a single consumer; a oneshot reply reaches the caller that asked (runtime facts, observed here, not proved)',
                'wall clock injected and constant within a phase, so that the log can be replayed exactly']
 TRUSTED_BASE = ['correspondence: dcharness (real Clock actor, 2 worker threads) vs dcdriver (Datacake.Ts.send/recv folded over the actor log); hooks H1 (wall clock) and H3 (clock event log)']
-THEOREM_NOTE = 'Datacake.Clock.onGet/onRegister/run (Model/Clock.lean) over Datacake.Ts.send/recv; theorems (about Clock.run, the function the driver replays the actor log through) replies_strictly_increasing, per_task_increasing, after_register_greater (no condition on counters; remote strictly inside the drift), register_takes_effect, onGet_total (a Get is answered whatever the wall clock reads), following_spec, legacy_drops_registration, d19_get_dies_on_drift'
+THEOREM_NOTE = 'Datacake.Clock.onGet/onRegister/run (Model/Clock.lean) over Datacake.Ts.send/recv; theorems (about Clock.run, the function the driver replays the actor log through) replies_strictly_increasing, per_task_increasing, after_register_greater (no condition on counters; every remote that is not beyond the drift, the limit included - D36), register_takes_effect, onGet_total (a Get is answered whatever the wall clock reads), following_spec, legacy_drops_registration, d19_get_dies_on_drift'
 PROCESS_PER_CASE = False
 JOBS = 4
 SHRINK = False
@@ -131,9 +131,9 @@ def oracle(case, impl):
                         if not val > r: bad.append('%s: task %d got %d after registering %d' % (t[0], ti, val, r))
                 else:
                     # the property: every stamp requested after a remote stamp was registered is greater, unless the remote was
-                    # beyond the allowed drift (own-node stamps are not remote).  One corner is unsatisfiable together with C09's
-                    # drift bound and excluded: a remote exactly AT the limit with no counter value left above it.
-                    if node(val) != own and (dts(val) + 4 <= wall + DRIFT_MS or (dts(val) <= wall + DRIFT_MS and counter(val) < 65000)):
+                    # beyond the allowed drift (own-node stamps are not remote).  No exclusion: a remote exactly AT the limit with no
+                    # counter value left above it counts too (D36: the clock moves to the instant after it)
+                    if node(val) != own and dts(val) <= wall + DRIFT_MS:
                         regs.append(val)
     return bad
 
